@@ -109,7 +109,7 @@ Record yfam_u (r : raw) : Prop := mk_yfam_u {
 Lemma yearly_pass_full_u : forall r rl k month ii cnt out,
   normalize r = Ok rl -> yfam_u r ->
   let y := r_y r + k * r_interval r in
-  2 <= y <= 9999 -> (r_byeaster r = None \/ 1583 <= y <= 4099) ->
+  1 <= y <= 9999 -> (r_byeaster r = None \/ 1583 <= y <= 4098) ->
   rebuild rl ii_init y month = Ok ii ->
   exists ds ds' f out' c1 s1 c1' b1,
     getdayset rl ii y month 1 = Ok (ds, 0, year_len y) /\
@@ -152,8 +152,8 @@ Qed.
 
 Lemma yearly_step_u : forall r rl k cnt s,
   normalize r = Ok rl -> yfam_u r -> at_pass_c r rl k cnt s ->
-  2 <= r_y r + k * r_interval r -> r_y r + (k + 1) * r_interval r <= 9999 ->
-  (r_byeaster r = None \/ (1583 <= r_y r + k * r_interval r /\ r_y r + (k + 1) * r_interval r <= 4099)) ->
+  1 <= r_y r + k * r_interval r -> r_y r + (k + 1) * r_interval r <= 9999 ->
+  (r_byeaster r = None \/ (1583 <= r_y r + k * r_interval r /\ r_y r + (k + 1) * r_interval r <= 4098)) ->
   exists acc' cnt' b, sp_take r (step_items r k) cnt (c_out s) = (acc', cnt', b) /\
     ((exists s', step rl s = inl s' /\ at_pass_c r rl (k + 1) cnt' s' /\ c_out s' = acc' /\ b = false) \/
      (exists t, step rl s = inr (acc', t) /\ (b = true \/ until_lt_start r))) /\
@@ -173,9 +173,9 @@ Proof.
     unfold between in *. lia. }
   destruct Hitv as [Hitv Hwk].
   set (y := r_y r + k * r_interval r) in *.
-  assert (Hy : 2 <= y <= 9999) by nia.
+  assert (Hy : 1 <= y <= 9999) by nia.
   rewrite Ay, Am in Ar.
-  assert (HEy : r_byeaster r = None \/ 1583 <= y <= 4099).
+  assert (HEy : r_byeaster r = None \/ 1583 <= y <= 4098).
   { destruct HE as [HE|HE]; [left; exact HE|right; unfold y; nia]. }
   destruct (yearly_pass_full_u r rl k (r_m r) (c_ii s) cnt (c_out s) HN Y Hy HEy Ar)
     as (ds & ds' & f & out' & c1 & s1 & c1' & b1 & E1 & E2 & E3 & E4 & G2 & G3 & G4).
@@ -202,9 +202,9 @@ Proof.
   - right. exists t. split; [exact PRE|]. apply G3. discriminate.
   - left. destruct (G2 eq_refl) as [Hb Ec]. subst c1'.
     set (y2 := y + interval rl).
-    assert (Hy2 : 2 <= y2 <= 9999).
+    assert (Hy2 : 1 <= y2 <= 9999).
     { unfold y2. rewrite Ni. replace (r_y r + (k + 1) * r_interval r) with (y + r_interval r) in Hhi by (unfold y; ring). lia. }
-    assert (HE2 : truthy (byeaster rl) = false \/ 1583 <= y2 <= 4099).
+    assert (HE2 : truthy (byeaster rl) = false \/ 1583 <= y2 <= 4098).
     { destruct EC as [[Ea0 T0]|[Ea1 T1]]; [left; exact T0|right].
       destruct HE as [HE|HE]; [congruence|].
       unfold y2. rewrite Ni. replace (r_y r + (k + 1) * r_interval r) with (y + r_interval r) in HE by (unfold y; ring).
@@ -239,8 +239,8 @@ Qed.
 (* after the first step whose first day is after UNTIL the code yields nothing more *)
 Lemma yearly_run_dead_until : forall r rl limit n k cnt s,
   normalize r = Ok rl -> yfam_u r -> at_pass_c r rl k cnt s -> 0 <= k ->
-  2 <= r_y r -> r_y r + (k + Z.of_nat n) * r_interval r <= 9999 ->
-  (r_byeaster r = None \/ (1583 <= r_y r /\ r_y r + (k + Z.of_nat n) * r_interval r <= 4099)) ->
+  1 <= r_y r -> r_y r + (k + Z.of_nat n) * r_interval r <= 9999 ->
+  (r_byeaster r = None \/ (1583 <= r_y r /\ r_y r + (k + Z.of_nat n) * r_interval r <= 4098)) ->
   sp_after_until r (jan1 (r_y r + k * r_interval r), 0) = true ->
   fst (run rl limit n s) = c_out s.
 Proof.
@@ -248,9 +248,9 @@ Proof.
   - reflexivity.
   - destruct (limit <=? zlen (c_out s)); [reflexivity|].
     pose proof Y as [HW Hfr Hp Hsp Hs]. pose proof (wf_itv r HW) as Hitv.
-    assert (Hyk : 2 <= r_y r + k * r_interval r) by nia.
+    assert (Hyk : 1 <= r_y r + k * r_interval r) by nia.
     assert (Hyk1 : r_y r + (k + 1) * r_interval r <= 9999) by nia.
-    assert (HEk : r_byeaster r = None \/ (1583 <= r_y r + k * r_interval r /\ r_y r + (k + 1) * r_interval r <= 4099)).
+    assert (HEk : r_byeaster r = None \/ (1583 <= r_y r + k * r_interval r /\ r_y r + (k + 1) * r_interval r <= 4098)).
     { destruct HE as [HE|HE]; [left; exact HE|right; nia]. }
     destruct (yearly_step_u r rl k cnt s HN Y A Hyk Hyk1 HEk) as (acc' & cnt' & b & ET & Hcase & Hau).
     specialize (Hau AU).
@@ -266,14 +266,14 @@ Qed.
 
 Lemma yearly_run_is_spec_u : forall r rl limit n k cnt s,
   normalize r = Ok rl -> yfam_u r -> at_pass_c r rl k cnt s -> 0 <= k ->
-  2 <= r_y r -> r_y r + (k + Z.of_nat n) * r_interval r <= 9999 ->
-  (r_byeaster r = None \/ (1583 <= r_y r /\ r_y r + (k + Z.of_nat n) * r_interval r <= 4099)) ->
+  1 <= r_y r -> r_y r + (k + Z.of_nat n) * r_interval r <= 9999 ->
+  (r_byeaster r = None \/ (1583 <= r_y r /\ r_y r + (k + Z.of_nat n) * r_interval r <= 4098)) ->
   fst (run rl limit n s) = fst (spec_loop r limit n k cnt (c_out s)).
 Proof.
   intros r rl limit n. induction n as [|n IH]; intros k cnt s HN Y A Hk Hlo Hhi HE.
   - reflexivity.
   - pose proof Y as [HW Hfr Hp Hsp Hs]. pose proof (wf_itv r HW) as Hitv.
-    assert (Hyk : 2 <= r_y r + k * r_interval r) by nia.
+    assert (Hyk : 1 <= r_y r + k * r_interval r) by nia.
     assert (Hyk1 : r_y r + (k + 1) * r_interval r <= 9999) by nia.
     assert (B : jan1 (r_y r + k * r_interval r) <= max_ord).
     { rewrite jan1_eq.
@@ -298,7 +298,7 @@ Proof.
         pose proof (step_dead rl s D) as SD. destruct (step rl s) as [s'|[out t]].
         -- destruct SD as [E D']. rewrite (run_dead rl limit n s' D'). exact E.
         -- exact SD.
-      * assert (HEk : r_byeaster r = None \/ (1583 <= r_y r + k * r_interval r /\ r_y r + (k + 1) * r_interval r <= 4099)).
+      * assert (HEk : r_byeaster r = None \/ (1583 <= r_y r + k * r_interval r /\ r_y r + (k + 1) * r_interval r <= 4098)).
         { destruct HE as [HE|HE]; [left; exact HE|right; nia]. }
         destruct (yearly_step_u r rl k cnt s HN Y A Hyk Hyk1 HEk) as (acc' & cnt' & b & ET & Hcase & _).
         rewrite ET. destruct Hcase as [(s' & ES & A' & EO & Eb)|(t & ES & Hb)].
@@ -312,8 +312,8 @@ Qed.
 
 (* rrule_iter_correct for the YEARLY family, COUNT and UNTIL included *)
 Theorem yearly_iter_correct_u : forall r rl limit n,
-  normalize r = Ok rl -> yfam_u r -> 2 <= r_y r -> r_y r + Z.of_nat n * r_interval r <= 9999 ->
-  (r_byeaster r = None \/ (1583 <= r_y r /\ r_y r + Z.of_nat n * r_interval r <= 4099)) ->
+  normalize r = Ok rl -> yfam_u r -> 1 <= r_y r -> r_y r + Z.of_nat n * r_interval r <= 9999 ->
+  (r_byeaster r = None \/ (1583 <= r_y r /\ r_y r + Z.of_nat n * r_interval r <= 4098)) ->
   fst (iterate rl limit n) = fst (spec_iter r limit n).
 Proof.
   intros r rl limit n HN Y Hlo Hhi HE.
@@ -329,13 +329,14 @@ Proof.
       let H := fresh "W" in apply andb_true_iff in HW'; destruct HW' as [HW' H] end.
     unfold between in *. lia. }
   destruct Hwf as [Hitv Hwk].
-  assert (Hy0 : 2 <= r_y r <= 9999) by nia.
-  assert (HE0 : truthy (byeaster rl) = false \/ 1583 <= r_y r <= 4099).
+  assert (Hy0 : 1 <= r_y r <= 9999) by nia.
+  assert (HE0 : truthy (byeaster rl) = false \/ 1583 <= r_y r <= 4098).
   { destruct EC as [[Ea0 T0]|[Ea1 T1]]; [left; exact T0|right]. destruct HE as [HE|HE]; [congruence|]. nia. }
   destruct (rebuild_succeeds rl (r_y r) (r_m r) Hy0 ltac:(rewrite Nwk; exact Hwk) TN HE0) as (ii0 & R0).
   pose proof (timeset_is_spec r rl HN HW ltac:(rewrite Hfr; reflexivity)) as HT.
-  unfold iterate, init_state. rewrite Ny, Nm, Nd, R0. cbn [bind].
-  rewrite Nfr. change (YEARLY <? HOURLY) with true. cbv iota. rewrite HT. cbn [bind]. rewrite Nc.
+  unfold iterate, init_state. rewrite Nfr. change (YEARLY =? WEEKLY) with false. cbn [andb]. cbv iota.
+  rewrite Ny, Nm, Nd, R0. cbn [bind].
+  change (YEARLY <? HOURLY) with true. cbv iota. rewrite HT. cbn [bind]. rewrite Nc.
   unfold spec_iter.
   set (s0 := mkSt _ _ _ _ _ _ _ _ _ _ _).
   assert (A0 : at_pass_c r rl 0 (r_count r) s0).
